@@ -184,7 +184,55 @@ _re_inv = re.compile(r"Error: Invariant (\S+) is violated")
 _re_cov = re.compile(r"^<(\w+) line .* of module (\w+)>: (\d+):(\d+)", re.M)
 
 
+def _depth_delta(ln):
+    """net number of tuple brackets opened by a printed line, ignoring string literals"""
+    d, i, instr = 0, 0, False
+    while i < len(ln):
+        c = ln[i]
+        if instr:
+            if c == "\\":
+                i += 1
+            elif c == '"':
+                instr = False
+        elif c == '"':
+            instr = True
+        elif ln.startswith("<<", i):
+            d += 1
+            i += 1
+        elif ln.startswith(">>", i):
+            d -= 1
+            i += 1
+        i += 1
+    return d
+
+
+def unwrap_tlc(out):
+    """TLC's pretty printer breaks a printed tuple that is wider than 80 columns over several lines
+    (`<< "TAG",` / `   "...payload..." >>`).  Every parser of TLC output here works line by line, so a wrapped tuple
+    would be silently skipped: join each one back into the one-line form `<<"TAG", ...>>`."""
+    res, lines, i = [], out.splitlines(), 0
+    while i < len(lines):
+        ln = lines[i]
+        if ln.startswith("<< ") and _depth_delta(ln) > 0:
+            parts, depth = [ln.strip()], _depth_delta(ln)
+            while depth > 0 and i + 1 < len(lines):
+                i += 1
+                parts.append(lines[i].strip())
+                depth += _depth_delta(lines[i])
+            j = " ".join(parts)
+            if j.startswith("<< "):
+                j = "<<" + j[3:]
+            if j.endswith(" >>"):
+                j = j[:-3] + ">>"
+            res.append(j)
+        else:
+            res.append(ln)
+        i += 1
+    return "\n".join(res) + ("\n" if out.endswith("\n") else "")
+
+
 def _parse_tlc(r):
+    r.stdout = unwrap_tlc(r.stdout)
     out = r.stdout
     for m in _re_states.finditer(out):
         r.generated, r.distinct = int(m.group(1)), int(m.group(2))
